@@ -128,6 +128,15 @@ def ctx_join_in_optional(b):
     return ('seq', ('opt', ('join', T2, seq(b[0]))), *b[1]), []
 
 
+def ctx_pjoin_nullable_sep(b):
+    # the separator may match nothing; the join still commits after it (s%{e}+ == e {s ~ e})
+    return ('alt', ('seq', ('pjoin', ('opt', T2), seq(b[0])), T1), seq(b[1])), []
+
+
+def ctx_gather_nullable_sep(b):
+    return ('seq', ('gather', ('grp', ('alt', T2, ('look', T1))), seq(b[0])), *b[1]), []
+
+
 def expansion(name, b):
     """The documentation's own equivalences as grammars (docs/syntax.rst, section on ~):
     [x] == B -> x | ();  {x} == B -> x B | ();  {x}+ == B -> x B | x.  Returns (start exp, rules) or None."""
@@ -152,6 +161,7 @@ CONTEXTS = [
     ('pclosure-in-choice', 2, ctx_pclosure_in_choice),
     ('closure-in-optional', 2, ctx_closure_in_optional), ('optional-in-optional', 2, ctx_optional_in_optional),
     ('join-in-optional', 2, ctx_join_in_optional),
+    ('pjoin-nullable-sep', 2, ctx_pjoin_nullable_sep), ('gather-nullable-sep', 2, ctx_gather_nullable_sep),
 ]
 
 # which body slots may receive cuts, per context (tails that are spliced into the
@@ -160,6 +170,7 @@ CUT_SLOTS = {
     'choice': (0, 1), 'optional': (0,), 'closure': (0,), 'pclosure': (0,), 'join': (0,), 'gather': (0,),
     'nested-choice': (0, 1), 'opt-in-closure': (0,), 'rule': (0, 1), 'rule-body': (0,), 'closure-in-choice': (0,),
     'pclosure-in-choice': (0,), 'closure-in-optional': (0,), 'optional-in-optional': (0,), 'join-in-optional': (0,),
+    'pjoin-nullable-sep': (0,), 'gather-nullable-sep': (0,),
 }
 
 
@@ -319,7 +330,9 @@ def run(rc):
         'contexts_with_pruning_inputs': sorted(rc.total.sets.get('contexts_pruned', ())),
     })
     # rule-body: a cut in a rule body without a choice can never prune (A -> alpha | fail); it is the negative control
-    missing = set(n for n, _, _ in CONTEXTS) - {'rule-body'} - set(rc.total.sets.get('contexts_pruned', ()))
+    # optional-in-optional: [[x ~ y]] gives nothing whether the inner optional is skipped or fails committed and is taken back,
+    # so the cut never changes the documented outcome there; what is checked is that the implementation agrees (it did not)
+    missing = set(n for n, _, _ in CONTEXTS) - {'rule-body', 'optional-in-optional'} - set(rc.total.sets.get('contexts_pruned', ()))
     if missing:
         rc.violation('vacuous: no input is pruned by a cut in contexts ' + ','.join(sorted(missing)))
     rc.assumptions += [
